@@ -32,6 +32,9 @@ PLANS = {
                 mc=[dict(model="MC_Rem", quick="MC_Rem_quick.cfg", thorough="MC_Rem_thorough.cfg")]),
     "C09": dict(check_forms=["rem"], drive=True,
                 mc=[dict(model="MC_Rem", quick="MC_Rem_quick.cfg", thorough="MC_Rem_thorough.cfg")]),
+    "C10": dict(drive=True),
+    "C11": dict(drive=True),
+    "C12": dict(drive=True),
     "C16": dict(
         mcgen=[dict(model="MC_Round", quick="MC_Round_quick.cfg", thorough="MC_Round_thorough.cfg")],
         drive=True,
